@@ -47,31 +47,53 @@ VF_DECLARE_INPUT(struct vf_in, IN)
  * fix_problem works on a small object.  The message text is replaced by "m" (only printed).
  */
 #define VF_NSLOT 7
+#define VF_NTAB_MAX 440
 static struct e2fsck_problem vf_slot[VF_NSLOT];
 static int vf_nslot;
+/* scalar columns of the real table, copied once by vf_load_table() */
+static problem_t vf_tcode[VF_NTAB_MAX], vf_tsecond[VF_NTAB_MAX];
+static int vf_tflags[VF_NTAB_MAX];
+static char vf_tprompt[VF_NTAB_MAX];
+static void vf_load_table(void)
+{
+	int i;
+	for (i = 0; i < VF_NTAB; i++) {
+		vf_tcode[i] = problem_table[i].e2p_code;
+		vf_tsecond[i] = problem_table[i].second_code;
+		vf_tflags[i] = problem_table[i].flags;
+		vf_tprompt[i] = problem_table[i].prompt;
+	}
+}
 static struct e2fsck_problem *find_problem(unsigned int code)
 {
-	int k, i;
+	int k, i, n = vf_nslot;
+	problem_t c = 0, sc = 0;
+	int fl = 0;
+	char pr = 0;
+
 	for (k = 0; k < VF_NSLOT; k++)
-		if (k < vf_nslot && vf_slot[k].e2p_code == code)
+		if (k < n && vf_slot[k].e2p_code == code)
 			return &vf_slot[k];
-	for (k = 0; k < VF_NSLOT; k++)
-		if (k == vf_nslot)
-			break;
-	if (k >= VF_NSLOT) {
-		PROP(0, "harness: closure of a problem exceeds the slots");
-		return 0;
-	}
-	vf_slot[k].e2p_code = 0;
 	for (i = 0; i < VF_NTAB; i++)
-		if (problem_table[i].e2p_code == code) {
-			vf_slot[k] = problem_table[i];
-			vf_slot[k].e2p_description = "m";
+		if (vf_tcode[i] == code) {
+			c = code; sc = vf_tsecond[i]; fl = vf_tflags[i]; pr = vf_tprompt[i];
 		}
-	if (!vf_slot[k].e2p_code)
+	if (!c)
 		return 0;
-	vf_nslot++;
-	return &vf_slot[k];
+	for (k = 0; k < VF_NSLOT; k++)
+		if (k == n) {
+			vf_slot[k].e2p_code = c;
+			vf_slot[k].e2p_description = "m";
+			vf_slot[k].prompt = pr;
+			vf_slot[k].flags = fl;
+			vf_slot[k].second_code = sc;
+			vf_slot[k].count = 0;
+			vf_slot[k].max_count = 0;
+			vf_nslot = n + 1;
+			return &vf_slot[k];
+		}
+	PROP(0, "harness: closure of a problem exceeds the slots");
+	return 0;
 }
 
 static struct e2fsck_struct vf_ctx;
@@ -223,11 +245,13 @@ int main(void)
 	for (i = 0; i < VF_NLATCH; i++)
 		ASSUME(!(IN.latch[i] & PRL_YES));
 #endif
+	PROP(VF_NTAB <= VF_NTAB_MAX, "harness: table fits");
+	vf_load_table();
 	for (i = 0; i < VF_NTAB; i++)
 		if ((unsigned) i == IN.idx) {
-			code = problem_table[i].e2p_code;
-			f = problem_table[i].flags;
-			p = problem_table[i].prompt;
+			code = vf_tcode[i];
+			f = vf_tflags[i];
+			p = vf_tprompt[i];
 		}
 	vf_check(code, f, p);
 	VF_END();
